@@ -5,7 +5,8 @@ import json, os, shutil, subprocess, sys
 src = sys.argv[1]
 sid = sys.argv[2] if len(sys.argv) > 2 else None
 meta = json.load(open(os.path.join(src, "meta.json")))
-pid = meta["property"]
+pid = meta.get("property") or (sid or "").split("-")[0]
+meta["property"] = pid
 patch = os.path.join(src, "patch.diff")
 def sh(cmd, **kw):
     return subprocess.run(cmd, shell=True, capture_output=True, text=True, **kw)
